@@ -539,6 +539,13 @@ def run(tier):
             d_, t_ = gen.request_bytes("sgopherplus" if hi % 3 == 0 else "gopherplus", "/h", gplus="$")
             rq.append(("$", "/h", d_, t_))
             return rq
+        def noise():
+            """requests that name the blocks they want (Gopher+ attribute lists); their own answers are
+            not judged, only what the process says afterwards"""
+            lines = [b"/h\t$+ABSTRACT\r\n", b"/h/a.txt\t!+VIEWS\r\n", b"/h\t$+NOSUCH\r\n", b"/h/d\t!+ADMIN+KEYWORDS\r\n",
+                     b"/h/a.txt\t+ABSTRACT\r\n"]
+            rng.shuffle(lines)
+            return {"op": "req", "noise": True, "requests": [{"data": gen.lat(l), "tls": False} for l in lines[:rng.randrange(1, 4)]]}
         steps = [{"op": "req", "requests": [{"data": gen.lat(d_), "tls": t_} for _, _, d_, t_ in reqs_now()]}]
         states = [dict(state)]
         meta = [reqs_now()]
@@ -556,6 +563,8 @@ def run(tier):
                     c = sidecar_content(rng, "printable")
                 steps.append({"op": "write", "path": pth, "data": c[0].decode("latin-1"), "keep_mtime": keep})
                 state[pth] = c
+            if hi % 2 == 1:
+                steps.append(noise())
             steps.append({"op": "req", "requests": [{"data": gen.lat(d_), "tls": t_} for _, _, d_, t_ in reqs_now()]})
             states.append(dict(state))
             meta.append(reqs_now())
@@ -583,7 +592,7 @@ def run(tier):
     fpos = 0
     hguess = {isel: twin_guess(isel, TT) for isel in hitems}
     for hi, (h, hr) in enumerate(zip(histories, hres)):
-        req_steps = [st for st in hr["res"]["steps"] if "results" in st]
+        req_steps = [so for st, so in zip(h["steps"], hr["res"]["steps"]) if st["op"] == "req" and not st.get("noise")]
         earlier = {}        # request bytes -> list of earlier answers
         for si, (stt, rq, stp) in enumerate(zip(h["states"], h["meta"], req_steps)):
             fo = fresh_out[fpos]
@@ -615,7 +624,7 @@ def run(tier):
                     upto = 0
                     nreq = -1
                     for k_, st_ in enumerate(h["steps"]):
-                        if st_["op"] == "req":
+                        if st_["op"] == "req" and not st_.get("noise"):
                             nreq += 1
                             if nreq == si:
                                 upto = k_
@@ -645,6 +654,63 @@ def run(tier):
                     report_h(0, form, sel, data, tls, out, "answer differs from the one a fresh process gives for the same files",
                              "history-divergence")
                 earlier.setdefault(data, []).append(out)
+    # ---------------- one sidecar cannot be opened: every other one must still be reported ----------------
+    ftree, fitems, _ = worlds[0]
+    cand = [sel for sel in sorted(fitems) if len(fitems[sel]["sidecars"]) >= 2 and sel.count("/") == 2]
+    cand = [c for c in cand if c.startswith("/files/")][:3 if tier == "quick" else 8] + \
+           [c for c in cand if c.startswith("/dirs/")][:3 if tier == "quick" else 8]
+    fcases = []
+    kinds = ["eacces", "eio", "vanish"]
+    for ci, isel in enumerate(cand):
+        it_ = fitems[isel]
+        for ei, ext in enumerate(it_["sidecars"]):
+            scsel = isel + ("/" if it_["kind"] == "dir" else "") + ext
+            rq = []
+            d_, t_ = gen.request_bytes("gopherplus", isel, gplus="!")
+            rq.append(("!", isel, d_, t_))
+            if ei == 0:
+                parent = isel.rsplit("/", 1)[0]
+                d_, t_ = gen.request_bytes("gopherplus", parent, gplus="$")
+                rq.append(("$", parent, d_, t_))
+            fcases.append({"fault": kinds[(ci + ei) % 3], "path": scsel, "item": isel, "ext": ext, "rq": rq,
+                           "requests": [{"data": gen.lat(d_), "tls": t_} for _, _, d_, t_ in rq]})
+    FCFG = {"handlers.dir.DirHandler": {"cachetime": "0"}, "handlers.UMN.UMNDirHandler": {"extstrip": "none"}}
+    fres = impl_run([{"op": "c15_faults", "tree": ftree, "config": FCFG,
+                      "cases": [{k_: c_[k_] for k_ in ("fault", "path", "requests")} for c_ in fcases]}])
+    if not fres[0]["ok"]:
+        raise RuntimeError(fres[0]["err"] + "\n" + fres[0].get("tb", ""))
+    n_fault_req = 0
+    for case, cres in zip(fcases, fres[0]["res"]["cases"]):
+        it_ = dict(fitems[case["item"]])
+        it_["sidecars"] = {e_: c_ for e_, c_ in it_["sidecars"].items() if e_ != case["ext"]}
+        for (form, sel, data, tls), o in zip(case["rq"], cres["results"]):
+            n_fault_req += 1
+            chk.count(("fault", case["fault"], case["path"], form))
+            out = decode_out(o)
+
+            def report_f(wi_, form_, sel_, req_, tls_, out_, what, tag, **extra):
+                nonlocal found
+                found = True
+                reported_tags.add(tag + ":fault")
+                near = [e for e in ftree if ("/" + e["path"]).startswith(case["item"]) and len(e.get("data", "")) < 30000]
+                rep = {"what": "while one sidecar file cannot be opened (%s on %s): %s" % (case["fault"], case["path"], what),
+                       "fault": case["fault"], "fault_path": case["path"], "form": form_, "selector": sel_,
+                       "request_latin1": gen.lat(req_), "tls": tls_, "response_latin1": out_[:1500],
+                       "world": {"tree": near[:60], "config": FCFG}, "kind": "gplus-fault"}
+                rep.update(extra)
+                chk.violation(rep, tag=tag + ":fault")
+            first, _, rest = out.partition("\r\n")
+            blocks = parse_blocks(rest) if first == "+-2" else None
+            if blocks is None:
+                report_f(0, form, sel, data, tls, out, "answer does not parse as Gopher+ blocks", "unparsable")
+            elif form == "!":
+                check_item(chk, report_f, (0, form, sel, data, tls, out), blocks, sel, it_, None, guess, default_mime)
+            else:
+                for g in group_items(blocks):
+                    if g and g[0][0] == "INFO" and g[0][1].split("\t")[1:2] == [case["item"]]:
+                        check_item(chk, report_f, (0, form, sel, data, tls, out), g, case["item"], it_, None, guess,
+                                   default_mime, listing=True)
+    cov["faults"] = {"cases": len(fcases), "requests": n_fault_req}
     cov["histories"] = {"histories": nhist, "requests": n_hist_req, "tree_states": len(fresh_states),
                         "fresh_process_references": sum(1 for x in fresh_out if x and x.get("ok"))}
     cov["oracle"] = {"gopherplus_requests": n_or, "worlds": nworlds, "items_per_world": 32 + 3,
@@ -817,6 +883,20 @@ def check_item(chk, report, ctx, blocks, isel, it, plain, guess, default_mime, e
 def replay(path):
     with open(path) as f:
         rep = json.load(f)
+    if rep.get("kind") == "gplus-fault":
+        res = impl_run([{"op": "c15_faults", "tree": rep["world"]["tree"], "config": rep["world"].get("config"),
+                         "cases": [{"fault": rep["fault"], "path": rep["fault_path"],
+                                    "requests": [{"data": rep["request_latin1"], "tls": rep["tls"]}]}]}])
+        if not res[0]["ok"]:
+            print(res[0]["err"])
+            return 2
+        out = gen.mask_times(res[0]["res"]["cases"][0]["results"][0]["out"].encode("latin-1")).decode("utf-8", "surrogateescape")
+        print("fault   :", rep["fault"], rep["fault_path"])
+        print("request :", repr(rep["request_latin1"]))
+        print("response:", repr(out[:1500]))
+        same = out[:1500] == rep["response_latin1"]
+        print("same behaviour as recorded:", same)
+        return 1 if same else 0
     if rep.get("kind") == "gplus-history":
         res = impl_run([{"op": "c15_history", "tree": rep["world"]["tree"], "config": rep["world"].get("config"),
                          "steps": rep["steps"]}])
